@@ -4,7 +4,9 @@ and docs/thorough_runs.json (written by bin/thorough-all)."""
 import json, glob, os, re
 p = '/verif/DESIGN.md'
 s = open(p).read()
-i = s.index("| prop | scenarios (quick; thorough adds depth)")
+i = s.find("| prop | scenarios (quick; thorough adds depth)")
+if i < 0:
+    i = s.index("| prop | scenarios of the quick tier (executions each)")
 j = s.index("\n\n", i)
 thor = {}
 if os.path.exists('/verif/docs/thorough_runs.json'):
